@@ -468,6 +468,16 @@ func verifC03_DiscoveredHost() {
 
 var errNet = errors.New("network error")
 
+// vLaterDeadlineCtx: a request context whose own deadline is one hour away (on the harness clock)
+type vLaterDeadlineCtx struct{ stdcontext.Context }
+
+func (c vLaterDeadlineCtx) Deadline() (time.Time, bool) {
+	var t time.Time
+	verifSetField(&t, "wall", uint64(1<<63|(4000000000<<30)))
+	verifSetField(&t, "ext", int64(time.Hour))
+	return t, true
+}
+
 // verifC10_Pool: retry, time limit and circuit breaker at the pool level.
 func verifC10_Pool() {
 	vSymbolicRequest = false
@@ -502,8 +512,15 @@ func verifC10_Pool() {
 	replaced := hasRetry && verifBool("discoveryReplacesTheServerListDuringTheFirstAttempt")
 	newServer := &Server{URL: "http://10.0.0.2:8080"}
 	currentURL := "http://10.0.0.1:8080"
+	// the client's own request may carry a deadline that lies far beyond the pool timeout: the
+	// pool timeout applies all the same
+	clientDeadline := hasTimeout && verifBool("clientRequestHasALaterDeadlineOfItsOwn")
 	for k := 0; k < requests; k++ {
-		ctx, _, _ := vClientRequest([]byte{1, 2}, stream)
+		ctx, creq, _ := vClientRequest([]byte{1, 2}, stream)
+		if clientDeadline {
+			creq.Request = creq.Request.WithContext(vLaterDeadlineCtx{stdcontext.Background()})
+			verifCover("client-deadline-later-than-the-pool-timeout")
+		}
 		vNSends, vDeadline = 0, false
 		var outcomes [8]int // 0 success, 1 failure code, 2 network error, 3 timeout
 		var listAtAttempt [8]string
